@@ -3,38 +3,52 @@
 (*   Connect kind ok      a Dial of the real client against the reference      *)
 (*                        server: which handshake the server saw, did it work  *)
 (*   Issue / Restart / Expire   ticket history steps (see TicketStore.tla)     *)
+(*   Block / Unblock      the store file cannot / can again be rewritten       *)
+(*                        (Connect kind = "fault": the dial was refused         *)
+(*                        before anything was sent; reused: the server saw a   *)
+(*                        ticket it had been shown before)                      *)
 (*   WrongSecret completed      a client configured with a different shared    *)
 (*                        secret / a tampered reply: did the handshake complete *)
 (*   Plan / ReadRet(x) / End    packet tampering runs (as in C05)              *)
 EXTENDS ByteStreamTrace
-VARIABLES have,      \* "none" | "valid" | "expired": the ticket the client should hold
+VARIABLES have,      \* "none" | "valid" | "expired": the ticket the client should hold in memory
+          infile,    \* the same for the ticket file (they differ only after write faults)
+          canwrite,  \* the store file can be rewritten
           tIntact, tTotal, tDelivered, tEnded
-ssvars == <<have, tIntact, tTotal, tDelivered, tEnded>>
-allvars == <<wcalled, wdone, delivered, hs, closed, l, have, tIntact, tTotal, tDelivered, tEnded>>
-SInit == TInit /\ have = "none" /\ tIntact = 0 /\ tTotal = 0 /\ tDelivered = 0 /\ tEnded = FALSE
-SReset == TReset /\ have' = "none" /\ tIntact' = 0 /\ tTotal' = 0 /\ tDelivered' = 0 /\ tEnded' = FALSE
+ssvars == <<have, infile, canwrite, tIntact, tTotal, tDelivered, tEnded>>
+allvars == <<wcalled, wdone, delivered, hs, closed, l, have, infile, canwrite, tIntact, tTotal, tDelivered, tEnded>>
+SInit == TInit /\ have = "none" /\ infile = "none" /\ canwrite = TRUE /\ tIntact = 0 /\ tTotal = 0 /\ tDelivered = 0 /\ tEnded = FALSE
+SReset == TReset /\ have' = "none" /\ infile' = "none" /\ canwrite' = TRUE /\ tIntact' = 0 /\ tTotal' = 0 /\ tDelivered' = 0 /\ tEnded' = FALSE
 Base == (THalfClose \/ THs \/ TWriteCall \/ TWriteRet \/ TQuiesce \/ TClose \/ TReadEnd \/ TInfo
          \/ (Is("ReadRet") /\ Trace[l].d # "x" /\ TReadRet)) /\ UNCHANGED ssvars
 \* a ticket is used for at most one handshake; expired / absent falls back to UniformDH; both always work
-SConnect == /\ Is("Connect") /\ l' = l + 1 /\ Trace[l].ok
-            /\ Trace[l].kind = (IF have = "valid" THEN "ticket" ELSE "uniformdh")
-            /\ have' = "none" /\ UNCHANGED <<tIntact, tTotal, tDelivered, tEnded>> /\ UNCHANGED bsvars
-SIssue == Is("Issue") /\ l' = l + 1 /\ have' = "valid" /\ UNCHANGED <<tIntact, tTotal, tDelivered, tEnded>> /\ UNCHANGED bsvars
-SRestart == Is("Restart") /\ l' = l + 1 /\ have' = (IF have = "expired" THEN "none" ELSE have)
-            /\ UNCHANGED <<tIntact, tTotal, tDelivered, tEnded>> /\ UNCHANGED bsvars
-SExpire == Is("Expire") /\ l' = l + 1 /\ have' = (IF have = "valid" THEN "expired" ELSE have)
-           /\ UNCHANGED <<tIntact, tTotal, tDelivered, tEnded>> /\ UNCHANGED bsvars
+\* (as TicketStore.tla: a stored ticket whose removal cannot be checkpointed is NOT sent - the dial is refused - and no
+\* ticket is ever shown to the server twice)
+SConnect == /\ Is("Connect") /\ l' = l + 1
+            /\ LET fault == have # "none" /\ ~canwrite IN
+               /\ Trace[l].kind = (IF fault THEN "fault" ELSE IF have = "valid" THEN "ticket" ELSE "uniformdh")
+               /\ Trace[l].ok = ~fault /\ ~Trace[l].reused
+               /\ infile' = (IF have # "none" /\ canwrite THEN "none" ELSE infile)
+            /\ have' = "none" /\ UNCHANGED <<canwrite, tIntact, tTotal, tDelivered, tEnded>> /\ UNCHANGED bsvars
+SIssue == Is("Issue") /\ l' = l + 1 /\ have' = "valid" /\ infile' = (IF canwrite THEN "valid" ELSE infile)
+          /\ UNCHANGED <<canwrite, tIntact, tTotal, tDelivered, tEnded>> /\ UNCHANGED bsvars
+SRestart == Is("Restart") /\ l' = l + 1 /\ have' = (IF infile = "expired" THEN "none" ELSE infile)
+            /\ UNCHANGED <<infile, canwrite, tIntact, tTotal, tDelivered, tEnded>> /\ UNCHANGED bsvars
+SExpire == Is("Expire") /\ l' = l + 1 /\ canwrite /\ have' = (IF have = "valid" THEN "expired" ELSE have) /\ infile' = have'
+           /\ UNCHANGED <<canwrite, tIntact, tTotal, tDelivered, tEnded>> /\ UNCHANGED bsvars
+SBlock == Is("Block") /\ l' = l + 1 /\ canwrite' = FALSE /\ UNCHANGED <<have, infile, tIntact, tTotal, tDelivered, tEnded>> /\ UNCHANGED bsvars
+SUnblock == Is("Unblock") /\ l' = l + 1 /\ canwrite' = TRUE /\ UNCHANGED <<have, infile, tIntact, tTotal, tDelivered, tEnded>> /\ UNCHANGED bsvars
 SWrong == Is("WrongSecret") /\ l' = l + 1 /\ ~Trace[l].completed /\ UNCHANGED ssvars /\ UNCHANGED bsvars
 \* tampering (direction "x"): never altered data, never anything of or after the damaged packet, an error is reported
-SRun == Is("Run") /\ l' = l + 1 /\ tIntact' = 0 /\ tTotal' = 0 /\ tDelivered' = 0 /\ tEnded' = FALSE /\ UNCHANGED have /\ UNCHANGED bsvars
+SRun == Is("Run") /\ l' = l + 1 /\ tIntact' = 0 /\ tTotal' = 0 /\ tDelivered' = 0 /\ tEnded' = FALSE /\ UNCHANGED <<have, infile, canwrite>> /\ UNCHANGED bsvars
 SPlan == Is("Plan") /\ l' = l + 1 /\ tIntact' = Trace[l].intact /\ tTotal' = Trace[l].total
-         /\ UNCHANGED <<have, tDelivered, tEnded>> /\ UNCHANGED bsvars
+         /\ UNCHANGED <<have, infile, canwrite, tDelivered, tEnded>> /\ UNCHANGED bsvars
 \* (also after the error: a consumer that keeps reading may be handed what was decoded before the damage, nothing else)
 SReadX == /\ Is("ReadRet") /\ Trace[l].d = "x" /\ l' = l + 1
           /\ Trace[l].ok /\ Trace[l].off = tDelivered /\ tDelivered + Trace[l].n <= tIntact
-          /\ tDelivered' = tDelivered + Trace[l].n /\ UNCHANGED <<have, tIntact, tTotal, tEnded>> /\ UNCHANGED bsvars
+          /\ tDelivered' = tDelivered + Trace[l].n /\ UNCHANGED <<have, infile, canwrite, tIntact, tTotal, tEnded>> /\ UNCHANGED bsvars
 SEnd == /\ Is("End") /\ l' = l + 1 /\ Trace[l].err # "" /\ (tIntact = tTotal => tDelivered = tTotal)
-        /\ tEnded' = TRUE /\ UNCHANGED <<have, tIntact, tTotal, tDelivered>> /\ UNCHANGED bsvars
-SNext == SReset \/ Base \/ SConnect \/ SIssue \/ SRestart \/ SExpire \/ SWrong \/ SRun \/ SPlan \/ SReadX \/ SEnd
+        /\ tEnded' = TRUE /\ UNCHANGED <<have, infile, canwrite, tIntact, tTotal, tDelivered>> /\ UNCHANGED bsvars
+SNext == SReset \/ Base \/ SConnect \/ SIssue \/ SRestart \/ SExpire \/ SBlock \/ SUnblock \/ SWrong \/ SRun \/ SPlan \/ SReadX \/ SEnd
 SSTraceSpec == SInit /\ [][SNext]_allvars
 =============================================================================
